@@ -91,7 +91,7 @@ func c10File(run *hx.Run, o *hx.Oracle, dir string, f, perFile int) {
 	sqlByTable := map[string][]string{}
 	for _, p := range rep.Programs {
 		if len(p.SQL) > 0 {
-			sqlByTable[strings.ToLower(unquoteIdent(p.Table.Name))] = p.SQL
+			sqlByTable[hx.FoldName(unquoteIdent(p.Table.Name))] = p.SQL
 		}
 	}
 	for ti := range rep.Meta {
@@ -99,7 +99,7 @@ func c10File(run *hx.Run, o *hx.Oracle, dir string, f, perFile int) {
 		if t.Name == "other" {
 			continue
 		}
-		c10Table(run, o, path, db, low, t, sqlByTable[strings.ToLower(t.Name)], "")
+		c10Table(run, o, path, db, low, t, sqlByTable[hx.FoldName(t.Name)], "")
 	}
 }
 
@@ -293,7 +293,7 @@ func c10Table(run *hx.Run, o *hx.Oracle, path string, db *sqlittle.DB, low *sdb.
 				bad("pk/count", fmt.Sprintf("table %q: sqlittle PK has %d columns, SQLite %d", t.Name, len(s.PK), len(kc)))
 			} else {
 				for i := range kc {
-					if !strings.EqualFold(s.PK[i].Column, *kc[i].Name) || (s.PK[i].SortOrder == sql.Desc) != (kc[i].Desc != 0) || collName(s.PK[i].Collate) != collName(*kc[i].Coll) {
+					if !hx.SameName(s.PK[i].Column, *kc[i].Name) || (s.PK[i].SortOrder == sql.Desc) != (kc[i].Desc != 0) || collName(s.PK[i].Collate) != collName(*kc[i].Coll) {
 						bad("pk/column", fmt.Sprintf("table %q PK column %d: sqlittle {%s %s desc=%v}, SQLite {%s %s desc=%d}", t.Name, i, s.PK[i].Column, s.PK[i].Collate, s.PK[i].SortOrder == sql.Desc, *kc[i].Name, *kc[i].Coll, kc[i].Desc))
 						break
 					}
@@ -302,7 +302,7 @@ func c10Table(run *hx.Run, o *hx.Oracle, path string, db *sqlittle.DB, low *sdb.
 			run.See("feature", "without-rowid")
 		}
 	} else if pk != nil {
-		if !strings.EqualFold(s.PrimaryKey, pk.Name) {
+		if !hx.SameName(s.PrimaryKey, pk.Name) {
 			bad("pk/index-name", fmt.Sprintf("table %q: sqlittle names the primary key index %q, SQLite %q", t.Name, s.PrimaryKey, pk.Name))
 		}
 		run.See("feature", "pk-index")
@@ -312,12 +312,12 @@ func c10Table(run *hx.Run, o *hx.Oracle, path string, db *sqlittle.DB, low *sdb.
 	// indexes, matched by name
 	byName := map[string]*hx.IndexInfo{}
 	for i := range t.Indexes {
-		byName[strings.ToLower(t.Indexes[i].Name)] = &t.Indexes[i]
+		byName[hx.FoldName(t.Indexes[i].Name)] = &t.Indexes[i]
 	}
 	listed := map[string]bool{}
 	for _, si := range s.Indexes {
-		ix, ok := byName[strings.ToLower(si.Index)]
-		listed[strings.ToLower(si.Index)] = true
+		ix, ok := byName[hx.FoldName(si.Index)]
+		listed[hx.FoldName(si.Index)] = true
 		if !ok {
 			bad("index/unknown-name", fmt.Sprintf("table %q: sqlittle lists index %q, SQLite has %v", t.Name, si.Index, keysOf(byName)))
 			continue
@@ -342,7 +342,7 @@ func c10Table(run *hx.Run, o *hx.Oracle, path string, db *sqlittle.DB, low *sdb.
 					bad("index/expression-as-column", fmt.Sprintf("index %q column %d: SQLite has an expression, sqlittle column %q", si.Index, i, sc.Column))
 				}
 				run.See("feature", "expression-index")
-			case !strings.EqualFold(sc.Column, want):
+			case !hx.SameName(sc.Column, want):
 				bad("index/column-name/origin-"+ix.Origin, fmt.Sprintf("index %q (origin %s) column %d: sqlittle %q, SQLite %q", si.Index, ix.Origin, i, sc.Column, want))
 			}
 			if (sc.SortOrder == sql.Desc) != (kc[i].Desc != 0) {
@@ -382,7 +382,7 @@ func c10Table(run *hx.Run, o *hx.Oracle, path string, db *sqlittle.DB, low *sdb.
 			sel = rn + ", " + sel
 		}
 		for _, si := range s.Indexes {
-			ix := byName[strings.ToLower(si.Index)]
+			ix := byName[hx.FoldName(si.Index)]
 			if ix == nil || ix.Partial != 0 {
 				continue
 			}
@@ -456,7 +456,7 @@ func c10Table(run *hx.Run, o *hx.Oracle, path string, db *sqlittle.DB, low *sdb.
 				if ih, err := low.Index(si.Index); err == nil {
 					if def, err := ih.Def(); err == nil {
 						run.Count("index_defs_parsed", 1)
-						if !strings.EqualFold(def.Table, t.Name) {
+						if !hx.SameName(def.Table, t.Name) {
 							bad("def/index-table", fmt.Sprintf("Index(%q).Def() names table %q, it belongs to %q", si.Index, def.Table, t.Name))
 						}
 					}
